@@ -36,6 +36,8 @@ pub struct Ctx {
     pub tier: Tier,
     pub threads: usize,
     pub verif_dir: PathBuf,
+    /// where the committed machinery lives (corpus, fuzz crate, known findings)
+    pub home_dir: PathBuf,
     /// multiply case counts (for ad-hoc deep runs): VERIF_SCALE
     pub scale: f64,
     /// seconds without progress on one case before a shard is declared hung
@@ -740,11 +742,11 @@ pub fn run_property(ctx: &Ctx, prop: &Property, only_sub: Option<&str>) -> i32 {
     let t0 = Instant::now();
     let mut known_lines = vec![];
     // known findings: replay each stored repro
-    for kf in load_known_findings(&ctx.verif_dir) {
+    for kf in load_known_findings(&ctx.home_dir) {
         if kf.property != prop.id {
             continue;
         }
-        let path = ctx.verif_dir.join(&kf.replay);
+        let path = ctx.home_dir.join(&kf.replay);
         match replay_file(prop, &path) {
             Ok(Err(_)) => {
                 let line = format!("KNOWN-FINDING: property={} id={} {}", prop.id, kf.id, kf.text);
